@@ -122,8 +122,10 @@ Finish(t) ==
     /\ UNCHANGED <<upc, shut, stopq, nstop, sub, hlog>>
 
 \* ---- UnregisterClient ---------------------------------------------------------------------------------------------
+\* (a client whose SetThreadPool(NULL) had read its pool pointer before Shutdown()'s last step cleared it still gets here after the
+\* shutdown: it finds nothing outstanding and nothing to remove)
 UnregBegin(c) ==
-    /\ upc[c] = "reg" /\ reg[c] # "no"
+    /\ upc[c] = "reg"
     /\ LET w == Outstanding(Cur, defq, c) IN
        /\ wait' = IF w THEN [wait EXCEPT ![c] = "waiting"] ELSE wait
        /\ upc' = [upc EXCEPT ![c] = IF w THEN "unregWait" ELSE "unregEnd"]
@@ -142,7 +144,9 @@ UnregEnd(c) ==
     /\ UNCHANGED <<nthreads, avail, active, thr, shut, stopq, nstop, sub, hlog>>
 
 \* ---- Shutdown (the pool's destructor) ---------------------------------------------------------------------------------
-ShutFlag == /\ AllowShutdown /\ shut = "no"
+\* (Shutdown() may run again on a pool that is already shut down - the recycler flush repeats until nothing is flushed, and the
+\* destructor calls it once more: every step then finds empty tables)
+ShutFlag == /\ AllowShutdown /\ shut \in {"no", "done"}
             /\ shut' = "flagged"
             /\ Log("ShutFlag", [x |-> 0])
             /\ UNCHANGED <<reg, pend, pq, defq, nthreads, avail, active, thr, wait, upc, stopq, nstop, sub, hlog>>
@@ -198,6 +202,9 @@ Conservation == \A c \in Clients : (reg[c] # "no" /\ shut = "no") =>
 FlagExact == shut = "no" => \A c \in Clients : (reg[c] = "busy") <=> (\E t \in TIds : Working(t) /\ thr[t].c = c)
 \* UnregisterClient returns only after everything the client submitted was handled (unless the pool is being destroyed)
 UnregisterWaits == \A c \in Clients : (upc[c] \in {"unregEnd", "gone"} /\ shut = "no") => Len(hlog[c]) = sub[c]
+\* ... and whatever else is going on (a shutdown included), once it has returned no pool thread is in - or on its way into - that client's handler:
+\* the caller may destroy the client
+NoHandlerAfterUnregister == \A c \in Clients : upc[c] = "gone" => ~\E t \in TIds : Working(t) /\ thr[t].c = c
 \* liveness: a thread waiting in UnregisterClient is released; Shutdown terminates; without shutdown everything submitted is handled
 UnregisterReturns == \A c \in Clients : (upc[c] = "unregWait") ~> (upc[c] = "gone")
 ShutdownTerminates == (shut = "flagged") ~> (shut = "done")
